@@ -5,6 +5,7 @@ Part B: curve formulas (translated: Ymq/Gen/Curves.lean; one Lemmas/Curve* modul
 Only property theorems live here.
 -/
 import Ymq.Lemmas.ChainGroup
+import Ymq.Lemmas.ChainLong
 import Ymq.Lemmas.CurveAddClosed
 import Ymq.Lemmas.CurveDoubleClosed
 import Ymq.Lemmas.CurveDblextClosed
@@ -69,6 +70,18 @@ more than 32"): with capacity 32 the builder indexes `chain[32]` for k = 0x91111
 theorem chain_cap32_witness : makeChainCap 32 10453154975102079249 = none := by decide
 
 example : makeChain (2 ^ 64 - 1) = some [-1, 126, 1] := by decide
+
+/-- `make_addition_chain_long` is total on the non-zero 1024-bit scalars: no u128/u32/i8 overflow or
+underflow (`exp += ..`, `nbits - bits`, `curbits -= 1`), no index outside its 384-entry buffer — the
+chain has at most 294 opcodes —, and the chain it returns denotes `n`; every opcode but the last is
+odd with `|x| ≤ 63` or even in `[2, 126]`, the last one is odd in `[1, 63]` (`WF 63`). -/
+theorem chain_long_eval (n : Nat) (h0 : 0 < n) (hn : n < 2 ^ 1024) :
+    ∃ c, makeChainLong n = some c ∧ evalChain c = (n : Int) ∧ c.length ≤ 294 ∧ WF 63 c := by
+  have hcap : 295 ≤ Ymq.Gen.Curves.chainLongCap := by decide
+  obtain ⟨c, h1, h2, h3, h4⟩ := makeChainLongCap_spec h0 hn hcap
+  exact ⟨c, h1, h2, h4, h3⟩
+
+example : makeChainLong (2 ^ 64) = some [120, 8, 1] := by decide
 
 section Group
 variable {G : Type} [AddCommGroup G]
@@ -141,20 +154,20 @@ theorem mul128_zero_witness (P : G) :
       (mkGaps (fun a b => a + b) (dbl P) 4 (id P)) [0] = some P := by
   simp [runChain, mkGaps, foldOps]
 
-/-- `scalar1024_chainmul(n, P)` over a group computes `n P` whenever the long builder returns a
-well-formed chain denoting `n` (see `chain_long_eval*` for when it does). -/
-theorem chainmul1024_spec_of_chain (n : Nat) (P : G) (c : List Int) (h1 : makeChainLong n = some c)
-    (h2 : WF 63 c) (h3 : evalChain c = (n : Int)) :
+/-- `scalar1024_chainmul(n, P)` over a group: returns normally and computes `n P` for every
+1024-bit scalar (0 included). -/
+theorem chainmul1024_spec (n : Nat) (hn : n < 2 ^ 1024) (P : G) :
     scalar1024Chainmul (0 : G) id id dbl dbl (fun a b => a + b) (fun a b => a + b) (fun a b => a - b) n P
       = some (n • P) := by
   unfold scalar1024Chainmul
   by_cases h0 : n = 0
   · subst h0; simp
   · simp only [h0, if_false]
+    obtain ⟨c, h1, h2, _, h4⟩ := chain_long_eval n (by omega) hn
     have hg := gapsOk_mkGaps P 32
     rw [h1]
     simp only
-    rw [runChain_spec _ P _ hg c (by simpa using h2), h3, natCast_zsmul]
+    rw [runChain_spec _ P _ hg c (by simpa using h4), h2, natCast_zsmul]
 
 example : GapsOk (mkGaps (fun a b => a + b) (dbl (1 : Int)) 4 (id 1)) (1 : Int) 7 := by
   simpa using gapsOk_mkGaps (1 : Int) 4
